@@ -30,6 +30,9 @@
 #include <stdexcept>
 #include <variant>
 #include <cassert>
+#include <cmath>
+#include <cstdio>
+#include <cstdlib>
 #include <cstring>
 
 using namespace UTAP;
@@ -1083,6 +1086,23 @@ static const char* get_builtin_fun_name(kind_t kind)
     return funNames[kind - ABS_F];
 }
 
+/** Writes a floating-point constant so that it reads back as exactly the same value and as a floating-point literal:
+ * the fewest of 15..17 significant digits that convert back to the value, with ".0" appended when the text would
+ * otherwise be read as an integer. */
+static std::ostream& print_double(std::ostream& os, double value)
+{
+    char text[32];
+    for (int precision = 15; precision <= 17; ++precision) {
+        std::snprintf(text, sizeof(text), "%.*g", precision, value);
+        if (std::strtod(text, nullptr) == value)
+            break;
+    }
+    os << text;
+    if (std::isfinite(value) && std::strpbrk(text, ".e") == nullptr)
+        os << ".0";
+    return os;
+}
+
 static inline std::ostream& embrace_strict(std::ostream& os, bool old, const expression_t& expr, int precedence)
 {
     if (precedence > expr.get_precedence())
@@ -1126,7 +1146,7 @@ std::ostream& expression_t::print(std::ostream& os, bool old) const
         if (get(0).get_value() >= 0)
             get(0).print(os << "; ", old);
         os << (flag ? "]([] " : "](<> ");
-        get(3).print(os, old) << ") >= " << get(4).get_double_value();
+        print_double(get(3).print(os, old) << ") >= ", get(4).get_double_value());
         break;
 
     case PROBA_BOX: flag = true; [[fallthrough]];
@@ -1278,7 +1298,7 @@ std::ostream& expression_t::print(std::ostream& os, bool old) const
     case CONSTANT:
 
         if (get_type().is(Constants::DOUBLE)) {
-            os << get_double_value();
+            print_double(os, get_double_value());
         } else if (get_type().is_string()) {
             os << get_string_value();
         } else if (get_type().is_integer()) {
